@@ -61,6 +61,20 @@ impl SizeManifest {
         // Validate header
         header.validate()?;
 
+        // entry_count is not trusted and sizes the tag bit masks and the entry
+        // list: entries have a fixed size, so the rest of the input bounds it.
+        let entry_size = SizeEntry::serialized_size(&header);
+        let consumed = cursor.position() as usize;
+        let remaining = data.len().saturating_sub(consumed);
+        if header.entry_count() as usize > remaining / entry_size {
+            return Err(SizeError::TruncatedData {
+                expected: (header.entry_count() as usize)
+                    .saturating_mul(entry_size)
+                    .saturating_add(consumed),
+                actual: data.len(),
+            });
+        }
+
         // Parse tags (between header and entries)
         let mut tags = Vec::with_capacity(header.tag_count() as usize);
         for _ in 0..header.tag_count() {
@@ -334,6 +348,17 @@ mod tests {
                 expected: 15,
                 actual: 3
             })
+        ));
+    }
+
+    #[test]
+    fn test_entry_count_beyond_input_rejected() {
+        // Header claims u32::MAX entries but one follows: error, not a huge allocation
+        let entries = vec![(vec![0xFF; 9], 42u64)];
+        let data = build_v1_manifest_bytes(9, u32::MAX, 0, 4, &entries);
+        assert!(matches!(
+            SizeManifest::parse(&data),
+            Err(SizeError::TruncatedData { .. })
         ));
     }
 
